@@ -435,6 +435,16 @@ def run_case(case, classes, number, tier, mode, tol):
             records.append({"kind": blame, "sig": [sa, sb], "rsig": rsig, "bad": bad,
                             "got": [mpmath.nstr(c, 25) for c in val], "stored": [mpmath.nstr(c, 25) for c in st],
                             "want": [mpmath.nstr(c, 25) for c in exp]})
+    # the all-Cartesian storage is one of the storages: if it disagrees with the specification while another
+    # storage agrees, the value depends on the storage (C01) as well as being wrong (C02)
+    others_ok = compared - len([r for r in records if r.get("kind") in ("C01", "C02")]) > 0
+    if others_ok:
+        for r in list(records):
+            if r.get("kind") == "C02" and "sig" in r:
+                r2 = dict(r)
+                r2["kind"] = "C01"
+                r2["note"] = "all-Cartesian storage differs from storages that agree with the specification"
+                records.append(r2)
     return records, hits, compared
 
 
